@@ -2,7 +2,7 @@ SPECIFICATION Spec
 CONSTANTS
   NVB = 1
   InitLog <- EmptyLog
-  MaxSeq = 2
+  MaxSeq = 3
   Keys = {"user"}
   Kinds = {"mut"}
   OldEvents = FALSE
@@ -34,6 +34,7 @@ CONSTANTS
   Gaps = {}
   Bugs = {}
   Target = "@TARGET@"
+  DeathOK = @DEATHOK@
 VIEW view
 INVARIANTS WitnessInv
 CHECK_DEADLOCK FALSE
